@@ -246,7 +246,7 @@ REGISTRY = {
         "assumptions": COMMON_ASSUMPTIONS,
     },
     "C18": {
-        "rules": [evo.rule_kind_dispatch, evo.rule_update_order, evo.rule_evo_eq_table, evo.rule_integrator_setup],
+        "rules": [evo.rule_kind_dispatch, evo.rule_update_order, evo.rule_evo_eq_table, evo.rule_integrator_setup, evo.rule_congruence, evo.rule_faithful_state],
         "explanation": (
             "static (dispatch-table extraction over Evolution.__init__ and its set-up helpers): decides that every "
             "method x state-kind combination is dispatched on self._isdop or rejected, that unsupported "
@@ -381,7 +381,9 @@ _ALSO = {
            "(ket/dop, ham(t) at the integrator's time for time-dependent keys, factor -i, hrho - hrho^dagger); the integrator is "
            "set up from the state kind, sparsity and time-dependence and started at self.t0 from the initial state; `t`/`pt` switch "
            "on the same test; callbacks and `pt` rebuild the state with the same reshape. The method / kind / time-origin rules are "
-           "purely structural (AST), no text matching.",
+           "purely structural (AST), no text matching. A symbolic algebra over (transpose, conjugate) flags decides that every "
+           "density-operator update is a congruence L rho L^dagger (using only H^dagger = H), and the state handed out under "
+           "method='integrate' is the integrator's vector after shape-only operations.",
     "C19": " Also: dimensional analysis of the coefficient update in simplify_single_site_ops (A/a == B/b, A replaced by B => "
            "coefficient times a/b); the Jordan-Wigner string covers [0, reg); dict-form sectors are ordered canonically; every write "
            "of the builder's terms / transform flags reaches _reset_caches() on every path.",
@@ -396,7 +398,7 @@ _ALSO_TECH = {
     "C13": "; unordered-collection dataflow rule, memo-key def-use rule",
     "C14": "; transposition-parity sibling rule",
     "C17": "; argsort-provenance dataflow with helper following, companion-permutation rule",
-    "C18": "; static evaluation of the right-hand-side table with per-entry kind checks, provenance of the integrator set-up arguments",
+    "C18": "; static evaluation of the right-hand-side table with per-entry kind checks, provenance of the integrator set-up arguments, symbolic transpose/conjugate word algebra for the two-sided updates",
     "C19": "; monomial (dimensional) analysis, interval rule, {clean,dirty} path analysis of cache invalidation",
 }
 for _pid, _txt in _ALSO.items():
